@@ -64,7 +64,7 @@ pub const KINDS: &[&str] = &[
     "transducer-state", "being-allocated", "struct-field", "vector-set", "box-chain",
     "map-callback", "dynamic-wind", "apply-args", "frames-deep", "make-vector-fill",
     "continuation-escaped", "closure-in-container", "host-rooted", "frame-closure-temp",
-    "continuation-frame-capture",
+    "continuation-frame-capture", "thread-result",
 ];
 
 /// One item: (kind, definitions to run first, expression, expected rendering).
@@ -111,6 +111,13 @@ pub fn gen_item(g: &mut Gen, kind: &str, uid: usize) -> (String, String, String)
             String::new(),
             format!("(let ((hb (box {a}))) (list (with-handler (lambda (e) {k1} (unbox hb)) (begin {k2} (error \"boom\")))))"),
             list_str(&[a]),
+        ),
+        // the result of a thread that has finished and has not been joined yet: the
+        // program reaches it through the thread handle
+        "thread-result" => (
+            format!("(define th{uid} (spawn-native-thread (lambda () (list (box {a}) (mutable-vector {b} {c})))))\n(define (wait{uid}) (if (thread-finished? th{uid}) 0 (wait{uid})))"),
+            format!("(begin (wait{uid}) {k1} (let ((r (thread-join! th{uid}))) {k2} (list (unbox (car r)) (mut-vector-ref (cadr r) 0) (mut-vector-ref (cadr r) 1))))"),
+            list_str(&[a, b, c]),
         ),
         "global" => (
             format!("(define g{uid} (box {a}))\n(define gv{uid} (mutable-vector (box {b}) {c}))"),
@@ -256,7 +263,7 @@ fn gen_workload(rng: &mut Rng, thorough: bool) -> Value {
 /// Root classes with a recorded defect (known_findings.json): evaluated on
 /// their own and after everything else, so that they neither hide nor get
 /// mixed into other results.
-pub const ISOLATED: &[&str] = &["transducer-state"];
+pub const ISOLATED: &[&str] = &["transducer-state", "thread-result"];
 pub const ISOLATED_JIT: &[&str] = &["struct-field", "nested-containers"];
 
 fn isolated(kind: &str, jit: bool) -> bool {
@@ -312,6 +319,8 @@ impl Scenario for C04 {
         faults.gc_num = w["gc"][0].as_u64().unwrap_or(0);
         faults.gc_den = w["gc"][1].as_u64().unwrap_or(1);
         faults.heap_chunk = w["heap_chunk"].as_u64().unwrap_or(64) as usize;
+        // one root class busy-waits for another thread: no strict priorities
+        vmh::FAIR_ONLY.store(true, std::sync::atomic::Ordering::SeqCst);
         let mut engine = vmh::start(
             spec,
             vmh::VmOptions {
@@ -417,7 +426,10 @@ impl Scenario for C04 {
         late.sort_by_key(|(k, _, _)| isolated(k, tier == "jit"));
         for (kind, expr, expect) in late {
             vmh::set_context(&format!("{}/{}", tier, kind));
+            // waiting for another thread to finish needs instruction-level scheduling
+            vmh::set_yield_at_dispatch(kind == "thread-result");
             let got = vmh::eval(&mut engine, &expr);
+            vmh::set_yield_at_dispatch(false);
             check(&kind, &expr, &expect, got);
         }
         vmh::set_context("");
